@@ -98,7 +98,8 @@ func runC06(c *Ctx) error {
 	// ... also when the subscriber's Close() drains (the receive loop does not end before the handler does)
 	cases = append(cases, c06Case{Class: "timeout-draining/scripted", Source: "scripted", Label: "handler", Closers: 1, Handlers: 1, Msgs: 1, Slow: 3 * time.Second, Timeout: 100 * time.Millisecond, Drain: true})
 	cases = append(cases, c06Case{Class: "timeout-draining/scripted", Source: "scripted", Label: "handler", Closers: 2, Handlers: 2, Msgs: 1, Slow: 3 * time.Second, Timeout: 150 * time.Millisecond, Drain: true, Repeat: true})
-	cases = append(cases, c06Case{Class: "draining/scripted", Source: "scripted", Label: "handler", Closers: 2, Handlers: 1, Msgs: 2, Timeout: 3 * time.Second, Drain: true})
+	// (one message per handler: a draining subscriber would wait for a second message that the closing router never settles)
+	cases = append(cases, c06Case{Class: "draining/scripted", Source: "scripted", Label: "handler", Closers: 2, Handlers: 2, Msgs: 1, Timeout: 3 * time.Second, Drain: true})
 	// the handler was stopped by the user while its invocation is still running: Close waits for that invocation all the same
 	cases = append(cases, c06Case{Class: "stopped-handler-still-busy/scripted", Source: "scripted", Label: "handler", Closers: 1, Handlers: 2, Msgs: 1, Timeout: 3 * time.Second, StopFirst: true})
 	cases = append(cases, c06Case{Class: "stopped-handler-still-busy/gochannel", Source: "gochannel", Label: "handler", Closers: 2, Handlers: 3, Msgs: 1, Timeout: 3 * time.Second, StopFirst: true})
